@@ -84,6 +84,8 @@ static const char* kCurated[] = {
     "a: x #never; b: a y",
     "a: x y %collapse #cell; b: a #cell",
     "a: x #never %force; b: a; c: b y",
+    "a: x %void; b: a y; c: b",
+    "a: x #never %void; b: a %void; c: b y",
     // redefinition across restarts
     "a: x; a': y; b: a",
     "a: x; b: a y; b': a",
@@ -319,7 +321,12 @@ struct Explorer {
   // performs the same executions and returns the same results.
   void checkSplit(const History& h, const RunOut& single) {
     for (auto& e : h) if (e.kind == 'r' || e.kind == 'd') return;
-    for (auto& b : single.builds) if (!b.success) return;
+    // With a failed or cancelled build in the history the in-memory and the
+    // persisted state legitimately differ until the next successful build
+    // (the interrupted state is not written), so only the RESULTS of the
+    // successful builds must agree, not the executed sets.
+    bool anyFailed = false;
+    for (auto& b : single.builds) if (!b.success) anyFailed = true;
     History split;
     bool sawBuild = false;
     for (auto& e : h) {
@@ -338,6 +345,7 @@ struct Explorer {
       std::string ea = a.executed, eb = b.executed;
       std::sort(ea.begin(), ea.end());
       std::sort(eb.begin(), eb.end());
+      if (anyFailed) { if (a.cancelled || b.cancelled || !a.success || !b.success) continue; ea = eb = ""; }
       if (a.success != b.success || a.value != b.value || ea != eb) {
         res.violate(args.prop + ".restart-split-differs",
                     "build #" + std::to_string(i + 1) + " in one engine: " + a.orderFreeSummary() + "; with a restart at every build boundary: " +
@@ -466,7 +474,12 @@ static void exploreWorld(const std::string& spec, const std::string& modeName, v
     ex.bfs(T ? 5 : 4, T ? 1 : 0, 1, false);
   } else if (p == "C03") {
     ex.cfg.checkC01 = m.keyset != 0; ex.cfg.checkC02 = false; ex.cfg.checkProto = false; ex.cfg.checkC07 = false;
-    ex.bfs(m.keyset ? (T ? 4 : 3) : (T ? 5 : 4), 0, 0, true);
+    {
+      int idx = -1;
+      for (int i = 0; i < (int)(sizeof(kCurated) / sizeof(kCurated[0])); ++i) if (spec == kCurated[i]) idx = i;
+      bool withCancel = m.keyset == 0 && idx >= 0 && (T || idx < 10);
+      ex.bfs(m.keyset ? (T ? 4 : 3) : (T ? 5 : 4), 0, withCancel ? 1 : 0, true);
+    }
   } else if (p == "C05") {
     ex.cfg.checkC02 = false; ex.cfg.checkProto = false; ex.cfg.checkC07 = false;
     ex.bfs(T ? 5 : 4, T ? 1 : 0, 1, false);
